@@ -159,6 +159,12 @@ func (fx *FuncVC) modularCall(fn *ssa.Function, spec *FuncSpec, spkg *PkgInfo, a
 	// results
 	var results []Val
 	for i := 0; i < resT.Len(); i++ {
+		if spec.Pure {
+			if v, ok := fx.pureApp(fn, i, args); ok {
+				results = append(results, v)
+				continue
+			}
+		}
 		results = append(results, fx.freshVal(resT.At(i).Type(), "r_"+fn.Name()))
 	}
 	post := &Env{fx: fx, st: fx.st, vars: map[string]Val{}, pkg: spkg, old: env}
@@ -565,4 +571,94 @@ func (fx *FuncVC) freshResult(sig *types.Signature, hint string) Val {
 		return vals[0]
 	}
 	return TupleV{vals}
+}
+
+// pureApp is result i of a pure function as an uninterpreted function of its (scalar or string)
+// arguments, so that two calls with the same arguments agree and contracts can name the result.
+func (fx *FuncVC) pureApp(fn *ssa.Function, i int, args []Val) (Val, bool) {
+	rt := fn.Signature.Results().At(i).Type()
+	if b, isBasic := under(rt).(*types.Basic); !isBasic || b.Info()&(types.IsBoolean|types.IsInteger) == 0 {
+		return nil, false
+	}
+	sort, ok := fx.scalarSort(rt)
+	if !ok {
+		return nil, false
+	}
+	var terms []T
+	var sorts []Sort
+	for _, a := range args {
+		switch a.(type) {
+		case Sc, StrV:
+		default:
+			return nil, false
+		}
+		for _, t := range flat(a) {
+			terms = append(terms, t)
+			sorts = append(sorts, t.Sort)
+		}
+	}
+	name := fmt.Sprintf("pf_%s_%d", sanitize(fx.eng.funcKey(fn)), i)
+	fx.declareFun(name, sorts, sort)
+	fx.pureAxioms(fn, args)
+	t := app(name, sort, terms...)
+	if rf, ok := fx.rangeFact(t, rt); ok {
+		fx.assumeRaw(rf)
+	}
+	return Sc{t, rt}, true
+}
+
+// pureAxioms states the (trusted) postconditions of a pure function without preconditions for
+// all arguments, once per function: forall args :: ensures(args, pf_0(args), pf_1(args)).
+func (fx *FuncVC) pureAxioms(fn *ssa.Function, args []Val) {
+	key := fx.eng.funcKey(fn)
+	mark := "pfax_" + sanitize(key)
+	if _, done := fx.declared[mark]; done {
+		return
+	}
+	fx.declared[mark] = SBool
+	spec, spkg := fx.eng.specFor(fn)
+	if spec == nil || !spec.Pure || len(spec.Requires) > 0 {
+		return
+	}
+	var bvars []T
+	var shapes []Val
+	for i, a := range args {
+		shapes = append(shapes, fx.boundLike(a, fmt.Sprintf("%s_%d", key, i), &bvars))
+	}
+	var binders, pats []string
+	var sorts []Sort
+	for _, b := range bvars {
+		binders = append(binders, fmt.Sprintf("(%s %s)", b.S, b.Sort))
+		sorts = append(sorts, b.Sort)
+	}
+	resT := fn.Signature.Results()
+	var results []Val
+	for i := 0; i < resT.Len(); i++ {
+		rt := resT.At(i).Type()
+		sort, ok := fx.scalarSort(rt)
+		if b, isBasic := under(rt).(*types.Basic); !ok || !isBasic || b.Info()&(types.IsBoolean|types.IsInteger) == 0 {
+			return
+		}
+		name := fmt.Sprintf("pf_%s_%d", sanitize(key), i)
+		fx.declareFun(name, sorts, sort)
+		t := app(name, sort, bvars...)
+		pats = append(pats, t.S)
+		results = append(results, Sc{t, rt})
+	}
+	st := &State{pc: True, cells: map[*Cell]Val{}, heaps: map[string]T{}, alloc: fx.alloc0, sym: &symHeaps{sorts: map[string]Sort{}}}
+	env := &Env{fx: fx, st: st, vars: map[string]Val{}, pkg: spkg}
+	fx.bindParams(env, fn, shapes)
+	post := &Env{fx: fx, st: st, vars: map[string]Val{}, pkg: spkg, old: env}
+	fx.bindParams(post, fn, shapes)
+	fx.bindResults(post, fn, results)
+	var facts []T
+	for _, en := range spec.Ensures {
+		facts = append(facts, fx.evalBool(post, en.E, en))
+	}
+	if len(st.sym.names) > 0 {
+		return // reads mutable memory: not a function of its arguments alone
+	}
+	for _, p := range pats {
+		fx.assumeDef(T{fmt.Sprintf("(forall (%s) (! %s :pattern (%s)))", strings.Join(binders, " "), And(facts...).S, p), SBool})
+	}
 }
